@@ -11,11 +11,13 @@ TReset == /\ Is("Reset")
           /\ failures' = 0 /\ st' = "closed" /\ sinceFail' = SatF
           /\ res' = "none" /\ act' = "Init" /\ consec' = 0 /\ Consume
 TAsk  == Is("Ask")  /\ Ask  /\ res' = TLog[l].res /\ Projected /\ Consume
+TRace == /\ Is("Race") /\ Race(TLog[l].n) /\ TLog[l].admits >= RaceLo(TLog[l].n) /\ TLog[l].admits <= RaceHi(TLog[l].n)
+         /\ Projected /\ Consume
 TFail == Is("Fail") /\ Fail /\ Projected /\ Consume
 TSucc == Is("Succ") /\ Succ /\ Projected /\ Consume
 TTick == Is("Tick") /\ Tick(TLog[l].d) /\ Consume
 TraceInit == Init /\ l = 1
-TraceNext == TReset \/ TAsk \/ TFail \/ TSucc \/ TTick
+TraceNext == TReset \/ TAsk \/ TRace \/ TFail \/ TSucc \/ TTick
 TraceSpec == TraceInit /\ [][TraceNext]_tvars
 HW == HWMark(l)
 =============================================================================
